@@ -4,6 +4,8 @@ mod c12;
 mod c13;
 mod c16;
 mod c17;
+mod c18;
+mod c18fs;
 mod wallet;
 mod refnum;
 
@@ -34,6 +36,7 @@ fn main() {
         "C13" => c13::main(tier),
         "C16" => c16::main(tier),
         "C17" => c17::main(tier),
+        "C18" => c18::main(tier),
         _ => {
             eprintln!("usage: vcheck-pure <C16|...> [quick|thorough]");
             std::process::exit(2);
